@@ -21,6 +21,8 @@ RULE = ("case = 1-3 base signals (python float/complex scalars; 0-d..3-d real/co
         "object, None), in-place mutation of a previously passed object, reset(), reset(True/False) on bases and slices. "
         "After every op all states/sensitivities of all handles are read back and compared with the model. Non-trivial = "
         ">= 1 write or accumulation through a slice and >= 1 reset. Distinct = sha1 of the canonical case JSON.")
+# coverage-guided engine (pbt/fuzz.py): executions per process in each tier (16 processes)
+FUZZ = {"quick": 0, "thorough": 6000, "instrument": "pymoto.core_objects"}
 ASSUMPTIONS = [
     "values passed to a signal have the dtype class (real/complex) of that signal's state and the shape of the (sliced) "
     "state, or are python scalars broadcast by numpy; real values into complex signals are not mixed in",
@@ -30,8 +32,8 @@ ASSUMPTIONS = [
     "base states are re-assigned only with values of the same shape and dtype class, so existing slices stay valid",
     "for python-scalar signals 'zeroed in place' can only mean 'value 0' (python numbers are immutable); buffer identity "
     "after reset(keep_alloc) is checked for array sensitivities only",
-    "atheris engine of DESIGN.md is not implemented: Hypothesis only (op lists instead of RuleBasedStateMachine so that "
-    "cases are JSON and replay without Hypothesis)",
+    "op lists instead of RuleBasedStateMachine so that cases are JSON and replay without Hypothesis; the thorough tier "
+    "additionally drives the same strategy/check through atheris (libFuzzer) via pbt/fuzz.py",
 ]
 _FAIL = object()
 
